@@ -97,6 +97,11 @@ def detect(name, checks):
     if rc != 0:
         print("patch does not apply:", out[-400:]); sys.exit(2)
     res = {}
+    saved = {}
+    for c in checks:  # the evidence files describe the unchanged tree: put them back afterwards
+        ep = "/verif/evidence/%s.json" % c
+        if os.path.exists(ep):
+            saved[ep] = open(ep).read()
     try:
         for c in checks:
             t0 = time.time()
@@ -106,6 +111,8 @@ def detect(name, checks):
             print(name, c, "exit", rc, "|", " | ".join(lines)[:400])
     finally:
         sh("git -C /repo checkout -- . && git -C /repo clean -fdq")
+        for ep, txt in saved.items():
+            open(ep, "w").write(txt)
     old = {}
     p = os.path.join(d, "detect.json")
     if os.path.exists(p):
